@@ -21,7 +21,10 @@ Record case := {
   k_t0 : obs;  k_t1 : obs;                        (* the operands right after construction *)
   k_steps : list obs;                             (* one observation per operation *)
   k_t0_after : obs;  k_t1_after : obs;            (* the operands re-observed after the whole program *)
-  k_unchanged : bool                              (* every intermediate table re-observed identical at the end *)
+  k_unchanged : bool;                             (* every intermediate table re-observed identical at the end *)
+  (* the same program run a second time WITHOUT looking at any intermediate table (no tolist / len / column access
+     between two operations — lazily indexed views stay unmaterialised): the final table and which steps raised *)
+  k_lazy : obs;  k_lazy_errs : list bool
 }.
 
 (* ---------- equality on observations ---------- *)
@@ -117,6 +120,9 @@ Fixpoint steps_ok (sch : schema) (cur t1 : table) (p : list op) (os : list obs) 
   end.
 Definition same_rows (a b : obs) : bool :=
   match obs_rows a, obs_rows b with Some x, Some y => table_eqb x y | None, None => true | _, _ => false end.
+Definition final_obs (t0 : obs) (steps : list obs) : obs :=
+  fold_left (fun acc o => match o with OTab _ _ _ => o | _ => acc end) steps t0.
+Definition step_errs (steps : list obs) : list bool := map (fun o => match o with OErrO => true | _ => false end) steps.
 Definition spec_ok (c : case) : bool :=
   construct_ok (k_sch c) (k_a0 c) (k_t0 c)
   && construct_ok (k_sch c) (k_a1 c) (k_t1 c)
@@ -124,7 +130,9 @@ Definition spec_ok (c : case) : bool :=
      | Some r0, Some r1 => steps_ok (k_sch c) r0 r1 (k_prog c) (k_steps c)
      | _, _ => is_nil (k_prog c)
      end
-  && same_rows (k_t0 c) (k_t0_after c) && same_rows (k_t1 c) (k_t1_after c) && k_unchanged c.
+  && same_rows (k_t0 c) (k_t0_after c) && same_rows (k_t1 c) (k_t1_after c) && k_unchanged c
+  && same_rows (final_obs (k_t0 c) (k_steps c)) (k_lazy c)
+  && list_eqb Bool.eqb (step_errs (k_steps c)) (k_lazy_errs c).
 
 (* ---------- model_ok ---------- *)
 Definition mres_eqb (sch0 : schema) (m : mres) (o : obs) : bool :=
@@ -165,4 +173,6 @@ Definition model_ok (c : case) : bool :=
      | Some t0, Some t1 => msteps_ok (k_sch c) t0 t1 (k_prog c) (k_steps c)
      | _, _ => is_nil (k_prog c)
      end
-  && obs_eqb (k_t0 c) (k_t0_after c) && obs_eqb (k_t1 c) (k_t1_after c) && k_unchanged c.
+  && obs_eqb (k_t0 c) (k_t0_after c) && obs_eqb (k_t1 c) (k_t1_after c) && k_unchanged c
+  && obs_eqb (final_obs (k_t0 c) (k_steps c)) (k_lazy c)
+  && list_eqb Bool.eqb (step_errs (k_steps c)) (k_lazy_errs c).
